@@ -281,6 +281,7 @@ fn det_lines<S: Scenario>(seed: u64, runs: u64) -> Vec<String> {
 fn explore<S: Scenario>(rf: &ReplayFile, count: u64) -> i32 {
     let mut hist: std::collections::BTreeMap<String, u64> = Default::default();
     let mut first_bad: Option<(u64, String)> = None;
+    let mut all = RunStats::default();
     for i in 0..count {
         let mut v = rf.scenario.clone();
         let seed = verif_rt::prng::derive(rf.run_seed, 7_000 + i);
@@ -292,8 +293,11 @@ fn explore<S: Scenario>(rf: &ReplayFile, count: u64) -> i32 {
             first_bad = Some((seed, o.violation.as_ref().unwrap().detail.clone()));
         }
         *hist.entry(key).or_insert(0) += 1;
+        all.merge(&o.stats, &[]);
     }
     out!("explore: {hist:?}");
+    out!("faults: {:?}", all.faults);
+    out!("probes: {:?}", all.probes);
     if let Some((seed, d)) = first_bad {
         out!("first failing run_seed {seed}: {d}");
     }
